@@ -25,7 +25,7 @@ theorem inv1_begin {s s' : State} {a : ActorId} {c : Choice} (h : Inv1 s)
   simp only [EHold, THold, SHold, BeginWf] at h1 h2 h5 h6 h1a h2a h5a h6a
   unfold stepBegin at hs
   conc_split hs
-  all_goals inv1_close h1 h2 h5 h6 a
+  all_goals inv1_close h1 h2 h3 h4 h5 h6 a
 
 set_option maxHeartbeats 1000000 in
 theorem inv1_commit {s s' : State} {a : ActorId} {c : Choice} (h : Inv1 s)
@@ -38,7 +38,7 @@ theorem inv1_commit {s s' : State} {a : ActorId} {c : Choice} (h : Inv1 s)
   simp only [EHold, THold, SHold, BeginWf] at h1 h2 h5 h6 h1a h2a h5a h6a
   unfold stepCommit at hs
   conc_split hs
-  all_goals inv1_close h1 h2 h5 h6 a
+  all_goals inv1_close h1 h2 h3 h4 h5 h6 a
 
 set_option maxHeartbeats 1000000 in
 theorem inv1_abort {s s' : State} {a : ActorId} {c : Choice} (h : Inv1 s)
@@ -51,7 +51,7 @@ theorem inv1_abort {s s' : State} {a : ActorId} {c : Choice} (h : Inv1 s)
   simp only [EHold, THold, SHold, BeginWf] at h1 h2 h5 h6 h1a h2a h5a h6a
   unfold stepAbort at hs
   conc_split hs
-  all_goals inv1_close h1 h2 h5 h6 a
+  all_goals inv1_close h1 h2 h3 h4 h5 h6 a
 
 set_option maxHeartbeats 1000000 in
 theorem inv1_after {s s' : State} {a : ActorId} {c : Choice} (h : Inv1 s)
@@ -64,7 +64,7 @@ theorem inv1_after {s s' : State} {a : ActorId} {c : Choice} (h : Inv1 s)
   simp only [EHold, THold, SHold, BeginWf] at h1 h2 h5 h6 h1a h2a h5a h6a
   unfold stepAfter at hs
   conc_split hs
-  all_goals inv1_close h1 h2 h5 h6 a
+  all_goals inv1_close h1 h2 h3 h4 h5 h6 a
 
 set_option maxHeartbeats 1000000 in
 theorem inv1_use {s s' : State} {a : ActorId} {c : Choice} (h : Inv1 s)
@@ -77,7 +77,7 @@ theorem inv1_use {s s' : State} {a : ActorId} {c : Choice} (h : Inv1 s)
   simp only [EHold, THold, SHold, BeginWf] at h1 h2 h5 h6 h1a h2a h5a h6a
   unfold stepUse at hs
   conc_split hs
-  all_goals inv1_close h1 h2 h5 h6 a
+  all_goals inv1_close h1 h2 h3 h4 h5 h6 a
 
 set_option maxHeartbeats 1000000 in
 theorem inv1_sess {s s' : State} {a : ActorId} {c : Choice} (h : Inv1 s)
@@ -90,7 +90,7 @@ theorem inv1_sess {s s' : State} {a : ActorId} {c : Choice} (h : Inv1 s)
   simp only [EHold, THold, SHold, BeginWf] at h1 h2 h5 h6 h1a h2a h5a h6a
   unfold stepSess at hs
   conc_split hs
-  all_goals inv1_close h1 h2 h5 h6 a
+  all_goals inv1_close h1 h2 h3 h4 h5 h6 a
 
 set_option maxHeartbeats 1000000 in
 theorem inv1_close {s s' : State} {a : ActorId} {c : Choice} (h : Inv1 s)
@@ -103,7 +103,7 @@ theorem inv1_close {s s' : State} {a : ActorId} {c : Choice} (h : Inv1 s)
   simp only [EHold, THold, SHold, BeginWf] at h1 h2 h5 h6 h1a h2a h5a h6a
   unfold stepClose at hs
   conc_split hs
-  all_goals inv1_close h1 h2 h5 h6 a
+  all_goals inv1_close h1 h2 h3 h4 h5 h6 a
 
 set_option maxHeartbeats 1000000 in
 theorem inv1_exp {s s' : State} {a : ActorId} {c : Choice} (h : Inv1 s)
@@ -116,7 +116,7 @@ theorem inv1_exp {s s' : State} {a : ActorId} {c : Choice} (h : Inv1 s)
   simp only [EHold, THold, SHold, BeginWf] at h1 h2 h5 h6 h1a h2a h5a h6a
   unfold stepExp at hs
   conc_split hs
-  all_goals inv1_close h1 h2 h5 h6 a
+  all_goals inv1_close h1 h2 h3 h4 h5 h6 a
 
 set_option maxHeartbeats 1000000 in
 theorem inv1_idle {s s' : State} {a : ActorId} {c : Choice} (h : Inv1 s)
@@ -129,7 +129,7 @@ theorem inv1_idle {s s' : State} {a : ActorId} {c : Choice} (h : Inv1 s)
   simp only [EHold, THold, SHold, BeginWf] at h1 h2 h5 h6 h1a h2a h5a h6a
   unfold stepIdle at hs
   conc_split hs
-  all_goals inv1_close h1 h2 h5 h6 a
+  all_goals inv1_close h1 h2 h3 h4 h5 h6 a
 
 theorem inv1_step {s s' : State} {a : ActorId} {c : Choice} (h : Inv1 s)
     (hs : step s a c = some s') : Inv1 s' := by
